@@ -718,7 +718,10 @@ def _read_set(ctx: ReaderContext) -> lset.PersistentSet:
     assert start == "{"
 
     def set_if_valid(s: Collection) -> lset.PersistentSet:
-        coll_set = set(s)
+        try:
+            coll_set = set(s)
+        except TypeError as e:
+            raise ctx.syntax_error("Set values must be hashable") from e
         if len(s) != len(coll_set):
             dupes = ", ".join(
                 lrepr(k) for k, v in collections.Counter(s).items() if v > 1
